@@ -271,11 +271,15 @@ pub fn build(c: &Case) -> Result<pgp::errors::Result<SignedSecretKey>, String> {
     if s.primary == Alg::Rsa2048 {
         b.can_encrypt(EncryptionCaps::All);
     }
+    // user ids with characters of 2, 3 and 4 UTF-8 octets among them (lengths are in octets)
     if s.uids >= 1 {
-        b.primary_user_id("Primary <primary@example.org>".into());
+        b.primary_user_id(if s.uids == 3 { "Zo\u{eb} M\u{fc}ller <zoe@example.org>".into() } else { "Primary <primary@example.org>".into() });
     }
     for i in 1..s.uids {
-        b.user_id(format!("Other {i} <other{i}@example.org>"));
+        b.user_id(match i {
+            1 => "\u{9375} \u{1f511} <key@example.org>".to_string(),
+            _ => format!("Other {i} <other{i}@example.org>"),
+        });
     }
     if s.prefs {
         b.preferred_symmetric_algorithms(
